@@ -157,6 +157,8 @@ def run():
     rep.set("api_executions", nexec)
     rep.set("malformed_calls", n_bad)
     report_rejects(rep, rejA + rejB, filesA + filesB, "C09")
+    from ..repo_traces import validate_recorded
+    validate_recorded(rep, "C09", "path")
     e = json.loads(open(filesA[0]).readline())
     for s in e["steps"][:2] + e["steps"][-1:]:
         rep.sample({"pre": e["pre"]["path"], "call": s["call"], "outcome": s["outcome"], "post": s["post"]["path"]})
